@@ -301,10 +301,23 @@ func c01GenFn(s Src) c01FnCase {
 			}
 		}
 	}
+	// unit conversion: a quantity written as a string, asked for in every unit word
+	if strings.HasSuffix(f.Name, "Quantity") && s.Prob(40) {
+		c.Recv = quoteFP(pickOne(s, []string{"14", "1", "0", "1.5", "-3", "1000000", "0.001"}) + pickOne(s, []string{" ", " ", "  ", ""}) + pickOne(s, c01UnitWords))
+		for i := 0; i < n; i++ {
+			c.Args = append(c.Args, quoteFP(pickOne(s, c01UnitWords)))
+		}
+		return c
+	}
 	for i := 0; i < n; i++ {
 		a := pickOne(s, c01Terms)
 		if directed && i < len(spec.Args) {
 			if ts := c01KindTerms(spec.Args[i]); ts != nil {
+				if spec.Args[i][0] == '\'' && s.Prob(25) {
+					// every unit word of the grammar and of UCUM's time units, singular and plural
+					c.Args = append(c.Args, quoteFP(pickOne(s, c01UnitWords)))
+					continue
+				}
 				if spec.Args[i][0] == '\'' && s.Prob(30) {
 					c.Args = append(c.Args, quoteFP(genComposedString(s)))
 					continue
@@ -755,12 +768,33 @@ func c01RunRes(ctx *Ctx, c c01ResCase) {
 	}
 }
 
+var c01UnitWords = []string{"year", "years", "month", "months", "week", "weeks", "day", "days", "hour", "hours", "minute", "minutes", "second", "seconds", "millisecond", "milliseconds",
+	"a", "mo", "wk", "d", "h", "min", "s", "ms", "mg", "1", "", "Years", "WEEKS", "fortnights"}
+
+// c01EnumUnits: every pair of unit words as source and target of a unit conversion, for the
+// receivers that can carry a unit (a quantity string, a Quantity literal, a number)
+func c01EnumUnits(yield func(c01FnCase)) {
+	for _, fn := range []string{"toQuantity", "convertsToQuantity"} {
+		for _, to := range c01UnitWords {
+			for _, from := range c01UnitWords {
+				for _, amount := range []string{"14", "0", "1.5"} {
+					yield(c01FnCase{Fn: fn, Recv: quoteFP(amount + " " + from), Args: []string{quoteFP(to)}, Opts: c01Opts{Compile: 1, Vars: true}})
+				}
+			}
+			for _, recv := range []string{"14", "1.5", "14 days", "3 'wk'", "1 year", "0 'ms'", "true"} {
+				yield(c01FnCase{Fn: fn, Recv: recv, Args: []string{quoteFP(to)}, Opts: c01Opts{Compile: 1, Vars: true}})
+			}
+		}
+	}
+}
+
 func TestC01(t *testing.T) {
 	r := newRec("C01",
 		"generated resources handed in beside the fixture include (25%) contained slots, half of them filled with an Any that holds something else than a ContainedResource (a bare resource, a datatype, a non-FHIR message, an unknown type, an undecodable payload, nothing); string receivers and arguments of the function matrix include strings composed of value-shaped fragments ('5days', '1\\t mg', '08', '0x1F' …).  five generators: (resource-paths) operators, type tests and functions applied to pairs of element paths of a generated resource of any R4 type; (programs) typed-ish random expression trees over every operator and table function with boundary leaves, compiled under a random option set and evaluated on the fixture Patient / nil / empty / generated resources / a hostile Patient (undeclared enum numbers, temporal elements without precision, empty choice wrappers and references), results pushed through EvaluateAs* and Collection.To*; (fn-matrix) every table function × arity in [Min-1, Max+1] × boundary receiver × boundary arguments; (mutants) byte-mutated sources (1..8 edits incl. hostile tokens) of generated programs and of the repository's own test expressions; (patch) add/insert/delete/replace/move × tree paths and odd paths × right/sibling/wrong/nil values × boundary indexes × nil resource.  non-trivial = the source compiled and contains an operator or invocation (programs, fn-matrix), the mutant is non-blank (mutants), the resource is non-nil (patch); distinct = FNV-64 of (source/arguments, option set)",
 		"nil entries inside the input slice, nil option values and typed-nil elements are outside the domain", "a hang is a case still running after 30 s (observed cases take < 5 ms)")
 	runProperty(t, r,
 		Stage[c01FnCase]{Name: "fn-matrix", Gen: c01GenFn, Run: c01RunFn, N: pick(12000, 250000)},
+		Stage[c01FnCase]{Name: "unit-matrix", Enum: c01EnumUnits, Run: c01RunFn},
 		Stage[c01ProgCase]{Name: "programs", Gen: c01GenProg, Run: c01RunProg, N: pick(8000, 200000)},
 		Stage[c01MutCase]{Name: "mutants", Gen: c01GenMut, Run: c01RunMut, N: pick(6000, 150000)},
 		Stage[c01PatchCase]{Name: "patch", Gen: c01GenPatch, Run: c01RunPatch, N: pick(3000, 80000)},
